@@ -6,10 +6,11 @@ V="$(cd "$(dirname "$0")/.." && pwd)"
 D="$(realpath "$1")"; shift
 ids=("$@"); [ ${#ids[@]} -eq 0 ] && ids=(C01 C02 C03 C04 C05 C06 C07 C08 C09 C10 C11 C12 C13 C14 C15 C16 C17)
 tier="${MUT_TIER:-quick}"
-cd /repo || exit 2
-git diff --quiet || { echo "/repo has uncommitted changes" >&2; exit 2; }
+R="${RCE_REPO:-/repo}"
+cd "$R" || exit 2
+git diff --quiet || { echo "$R has uncommitted changes" >&2; exit 2; }
 git apply "$D/patch.diff" || { echo "patch does not apply" >&2; exit 2; }
-trap 'git -C /repo checkout -- . ; git -C /repo clean -fdq src' EXIT
+trap 'git -C "$R" checkout -- . ; git -C "$R" clean -fdq src' EXIT
 res=""
 for id in "${ids[@]}"; do
   out=$("$V/check" "$id" "$tier" 2>&1); rc=$?
